@@ -297,11 +297,13 @@ Lemma do_error_io : mem_s "py_io_do_error" translated_io = true -> forall (e : e
 Proof.
   intros Hin e w. first [untranslated Hin | clear Hin].
   all: unfold py_io_do_error, log_effect. all: io. all: unfold attr. all: cbn [String.eqb Ascii.eqb Bool.eqb g_eq gint pv_eq].
-  all: destruct (quitonerror c =? 2)%N eqn:E2; [replace (Z.of_N (quitonerror c) =? 2) with true by lia; reflexivity|].
-  all: replace (Z.of_N (quitonerror c) =? 2) with false by lia.
-  all: destruct (quitonerror c =? 1)%N eqn:E1;
-       [replace (Z.of_N (quitonerror c) =? 1) with true by lia; destruct has_handler; reflexivity|].
-  all: replace (Z.of_N (quitonerror c) =? 1) with false by lia. all: reflexivity.
+  (* every integer test of the source, whichever way round it is written, is decided by the two facts about quitonerror *)
+  all: destruct (quitonerror c =? 2)%N eqn:E2; destruct (quitonerror c =? 1)%N eqn:E1;
+       repeat match goal with
+              | |- context [Z.eqb ?a ?b] =>
+                  first [replace (Z.eqb a b) with true by lia | replace (Z.eqb a b) with false by lia]
+              end;
+       try (destruct has_handler); reflexivity.
 Qed.
 
 (* ==== read(): one iteration of `while parsing:` against the model's `step` ==== *)
@@ -564,7 +566,9 @@ Ltac ev1 :=
     | match goal with H : N.eqb ?a ?b = _ |- context [N.eqb ?a ?b] => rewrite H end
     | match goal with H : nmea_hdr ?x = _ |- context [nmea_hdr ?x] => rewrite H end
     | progress cbn [andb orb negb N.eqb Pos.eqb]
-    | match goal with |- context [if ?b then ?x else ?x] => replace (if b then x else x) with x by (destruct b; reflexivity) end ].
+    | match goal with |- context [if ?b then ?x else ?x] => replace (if b then x else x) with x by (destruct b; reflexivity) end
+    (* a test the source evaluates before the one that decides (conjuncts in another order): both outcomes *)
+    | match goal with |- context [if N.eqb ?a ?b then _ else _] => destruct (N.eqb a b) eqn:? end ].
 Ltac ev := repeat ev1; reflexivity.
 
 (* one step of the block at the head of the goal `prog w = _` *)
